@@ -1155,9 +1155,15 @@ impl Resolver {
                                 Name::Name(r) => self.variables[*r].definition,
                                 Name::Namespace(_, span) => *span,
                             };
+                            // As for `from` below: the preamble's `use`s aren't written in this file.
+                            let (at, other, other_is) = if &self.span_file(&stmt.span) != file_or_lib {
+                                (span, stmt.span, "Every file imports this namespace here")
+                            } else {
+                                (stmt.span, span, "First definition is here")
+                            };
                             let err = resolution_error!(
                                 self,
-                                stmt.span,
+                                at,
                                 "Name collision - duplicate definitions of {:?}",
                                 name.name()
                             );
@@ -1165,7 +1171,7 @@ impl Resolver {
                                 err,
                                 format!("Maybe {:?} is already imported?", name.name()),
                             );
-                            let err = self.add_help(err, span, "First definition is here".into());
+                            let err = self.add_help(err, other, other_is.into());
                             errs.push(err);
                         }
                         Entry::Occupied(_) => { /* We allow importing the same thing multiple times */
